@@ -442,6 +442,9 @@ func formatExprForType(expr ast.Expression) string {
 			}
 			return "[" + strings.Join(parts, ", ") + "]"
 		}
+		if e.Value == nil {
+			return "NULL"
+		}
 		// A string keeps its quotes and is escaped like any other string inside a type
 		if s, ok := e.Value.(string); ok && e.Type == ast.LiteralString && !e.IsBigInt {
 			return "\\\\\\'" + escapeStringForTypeParam(s) + "\\\\\\'"
